@@ -14,13 +14,18 @@ def num(x):
 
 
 class ColourTap(ec.Tap):
-    """downstream recorder that also notes packet.color at the moment of out.put"""
+    """downstream recorder that notes, at the moment of out.put, packet.color and the shaper's public state as a next hop
+    reading it inside its put() sees it (`view` = the sampler of the shaper this tap sits behind)"""
+
+    def __init__(self, h, tag, view=None):
+        super().__init__(h, tag)
+        self.view = view
 
     def put(self, p):
         uid = getattr(p, "uid", None)
         self.got.append(p)
         self.h._emit(["out", self.tag, uid, ec.pkt_fields(p), id(p) == id(self.h.packets.get(uid)),
-                      getattr(p, "color", None)])
+                      getattr(p, "color", None), self.view() if self.view else None])
 
 
 # ---- the statement of C11 as a reference computation (exact rationals, independent of the Coq model) -------
@@ -46,7 +51,7 @@ class RefBucket:
 
 
 def ref_tb(case, arrivals):
-    """arrivals [(uid, instant, size)] in put order -> [(uid, debit instant, departure instant)]"""
+    """arrivals [(uid, instant, size)] in put order -> [(uid, debit instant, departure instant, tokens left after the debit)]"""
     t0 = Fr(case["t0"])
     rate, B = Fr(case["rate"]), Fr(case["bsize"])
     peak = Fr(case["peak"]) if case["peak"] not in (None, 0, "0/1") else None
@@ -59,13 +64,14 @@ def ref_tb(case, arrivals):
         d = h + b.earliest(size)
         b.take(d, size)
         dep = d + (Fr(8 * size) / peak if peak else 0)
-        out.append((uid, d, dep))
+        out.append((uid, d, dep, b.level))
         free = dep
     return out
 
 
 def ref_trtb(case, arrivals, want_state=False):
-    """-> [(uid, departure instant, colour)]   (with want_state: also the buckets and the instant the server is free)"""
+    """-> [(uid, departure instant, colour, committed tokens left, peak tokens left or None)]
+    (with want_state: also the buckets and the instant the server is free)"""
     t0 = Fr(case["t0"])
     cir, cbs = Fr(case["cir"]), Fr(case["cbs"])
     pir = Fr(case["pir"]) if case["pir"] not in (None, 0, "0/1") else None
@@ -94,7 +100,7 @@ def ref_trtb(case, arrivals, want_state=False):
             w = C.earliest(size)
             col = "yellow" if w > 0 else "green"
             C.take(h + w, size)
-        out.append((uid, h + w, col))
+        out.append((uid, h + w, col, C.level, P.level if P else None))
         free = h + w
     if want_state:
         return out, (C, P, free)
@@ -136,11 +142,39 @@ def extracted_bucketput(repo):
     return tr.gen_module("onl/netdev/token_bucket.py: TokenBucket.put; two_level_token_bucket.py: TwoRateTokenBucket.put",
                          "bput_st", "b_", [("packets_received", "Z")], "bput_fx", BUCKETPUT_CONS, specs)
 
+
+# TokenBucket.run, the server process, cut at its yields (vlib/translate_gen.py): Gen/Extracted_bucket_run.v; bridged to the
+# TInit / TGet / TTimer steps of Elem/Bucket.v by coq/Elem/BucketRunBridge.v; obligations in Props/C11_BridgeRun.v
+TB_RUN_STATE = [("current_bucket", "Q"), ("update_time", "Q"), ("packets_sent", "Z")]
+TB_RUN_READS = [("self.bucket_size", "bucket_size", "Q"), ("self.rate", "rate", "Q"),
+                ("self.peak", "peak", "optQ"),                       # None | number: `if self.peak:`
+                ("env.now", "now", "Q"), ("self.env.now", "now", "Q"),
+                ("packet.size", "size", "Z"),
+                ("self.out", "out_set", "optobj"), ("self.debug", "debug", "bool")]
+TB_RUN_FX = [("self.out.put(packet)", "FxOutPut", [])]
+TB_RUN_SEES = {"FxOutPut": ["packets_sent"]}          # what the downstream can see of the bucket during the call
+TB_RUN_FX_CONS = [("FxOutPut", "(packets_sent : Z)")]
+TB_RUN_REQUESTS = [("self.store.get()", "RqStoreGet", [], "obj"),
+                   ("env.timeout(_1)", "RqTimeout", ["Q"], None), ("self.env.timeout(_1)", "RqTimeout", ["Q"], None)]
+TB_RUN_REQ_CONS = [("RqStoreGet", ""), ("RqTimeout", "(d : Q)")]
+TB_RUN_RAISES = [("raise ValueError(\"token bucket's out is None\")", "ExOutNone")]
+
+
+def extracted_bucket_run(repo):
+    import os
+    from vlib import translate_gen as tg
+    spec = tg.GenSpec(os.path.join(repo, "onl", "netdev", "token_bucket.py"), "TokenBucket", "run", "gen_TokenBucket_run",
+                      reads=TB_RUN_READS, effects=TB_RUN_FX, requests=TB_RUN_REQUESTS, raises=TB_RUN_RAISES,
+                      objects=["packet"], sees=TB_RUN_SEES)
+    return tg.gen_run_module("onl/netdev/token_bucket.py: TokenBucket.run", spec, TB_RUN_STATE, "tb_run_st", "tb_",
+                             "tb_run_fx", TB_RUN_FX_CONS, TB_RUN_REQ_CONS, exn_cons=[("ExOutNone", "")], types="tb_run")
+
+
 class BucketPart:
     name = "bucket"
     kinds = ["tb", "trtb", "tb2", "trtb2"]
     serves = ["C11", "C08"]
-    props_files = {"C11": ["Props/C11.v", "Props/C11_BridgePut.v"], "C08": ["Props/C08_Bucket.v"]}
+    props_files = {"C11": ["Props/C11.v", "Props/C11_BridgePut.v", "Props/C11_BridgeRun.v"], "C08": ["Props/C08_Bucket.v"]}
 
     # ---- second tie (put bodies): regenerate before the Coq build (fail closed) ----------------------------
     def pre_build(self, prop_id):
@@ -150,6 +184,7 @@ class BucketPart:
         from vlib import framework as fw
         from vlib import translate as tr
         tr.write_if_changed(os.path.join(fw.COQ, "Gen", "Extracted_bucketput.v"), extracted_bucketput(fw.REPO))
+        tr.write_if_changed(os.path.join(fw.COQ, "Gen", "Extracted_bucket_run.v"), extracted_bucket_run(fw.REPO))
 
     coq_imports = ["From ONL Require Import Base.Cmp Elem.Packet Elem.StoreQ Elem.Bucket Elem.TwoRate."]
     weight = 1
@@ -161,7 +196,11 @@ class BucketPart:
                 "least one packet that had to wait for tokens (tb) resp. at least two different colours (trtb); kinds tb2 / trtb2 (12%): TWO "
                 "bucket instances (different parameters; tb2 also puts a TokenBucket next to a TwoRateTokenBucket) in ONE Environment "
                 "with interleaved workloads, each replayed against its own copy of the model, monitors per instance plus "
-                "instances-interfere (an action of one instance must not change the other's public state); distinct by hash"),
+                "instances-interfere (an action of one instance must not change the other's public state); 17%: late configuration "
+                "(built with other values or without optional arguments, public attributes assigned before any traffic); 50%: packet "
+                "ids numbered per flow (equal ids inside the shaper together); the recording next hop samples the shaper's public "
+                "state inside its put() (hand-off clauses, also replayed against the model); after 12% of the cases a fixed canary "
+                "scenario runs in the same process and is compared with its known observation; distinct by hash"),
         "C08": "same case stream as C11; non-trivial = at least 3 packets, at least one queued behind another",
     }
     trusted_base = {
@@ -170,7 +209,13 @@ class BucketPart:
                 "packet.color is read by the recording sink at the moment of out.put",
                 "vlib/translate.py (Python ast, fail closed) regenerates coq/Gen/Extracted_bucketput.v from TokenBucket.put / "
                 "TwoRateTokenBucket.put of the tree under test before every build; C11_gen_*_put (Props/C11_BridgePut.v) bridge them "
-                "to the TPut / RPut steps; the refill arithmetic (in run()) is not covered by this tie"],
+                "to the TPut / RPut steps",
+                "vlib/translate_gen.py (same subset and tables, plus the cut of a generator body at its yields; tables TB_RUN_* in "
+                "props/part_bucket.py) regenerates coq/Gen/Extracted_bucket_run.v from TokenBucket.run before every build; the "
+                "C11_gen_tb_run_* theorems (Props/C11_BridgeRun.v, proofs Elem/BucketRunBridge.v) prove the TInit / TGet / TTimer "
+                "steps of the TokenBucket automaton -- refill, token wait, debit, peak spacing -- equal to the generated functions; "
+                "TwoRateTokenBucket.run is not covered by this tie (correspondence only); that the kernel resumes the generator "
+                "exactly at these steps stays with the per-run correspondence"],
         "C08": ["float rounding is outside the theorems (dyadic workloads)"],
     }
     assumptions = {
@@ -201,11 +246,17 @@ class BucketPart:
                 c["pre"] = False
             off = 100
             wb = b["workload"]
-            wb["packets"] = {str(int(u) + off): {**sp, "id": sp["id"] + off} for u, sp in wb["packets"].items()}
+            wb["packets"] = {str(int(u) + off): dict(sp) for u, sp in wb["packets"].items()}     # same ids in both instances
             for d in wb["drivers"]:
                 d["bursts"] = [[t, [u + off for u in uids]] for (t, uids) in d["bursts"]]
-            return {"kind": kind2, "t0": cf.qjson(t0), "insts": [a, b]}
-        return self._gen_single(rng, rng.choice(["tb", "trtb"]))
+            case = {"kind": kind2, "t0": cf.qjson(t0), "insts": [a, b]}
+        else:
+            case = self._gen_single(rng, rng.choice(["tb", "trtb"]))
+        # after a fraction of the cases the same worker process runs a tiny fixed scenario whose observation is known:
+        # state that survives from one run (instance, class, module) to the next shows up there
+        if rng.random() < 0.12:
+            case["canary"] = True
+        return case
 
     def _gen_single(self, rng, kind, t0=None):
         # "tight": slow rates, small buckets, bursts, no long idle gap - the buckets rarely saturate, so every token counts
@@ -259,10 +310,10 @@ class BucketPart:
                 arr = self._static_arrivals(case)
                 inst = []
                 if kind == "tb":
-                    for (_, d, dep) in ref_tb(case, arr):
+                    for (_, d, dep, _) in ref_tb(case, arr):
                         inst += [d, dep]
                 else:
-                    inst = [t for (_, t, _) in ref_trtb(case, arr)]
+                    inst = [t for (_, t, _, _, _) in ref_trtb(case, arr)]
                 inst = sorted({t for t in inst if ec_exact(t)})
                 if inst:
                     k = rng.randint(1, min(3, len(inst)))
@@ -284,6 +335,25 @@ class BucketPart:
                 self._boundary_arrival(case, rng, sizes)
             except Exception:
                 pass
+        # packet ids: numbered per flow from 1 (as DistPacketGenerator does), so packets with EQUAL ids of different flows
+        # are inside the shaper together; the harness uid stays the identity
+        if rng.random() < 0.5:
+            nxt = {}
+            for u in sorted(w["packets"], key=int):
+                sp = w["packets"][u]
+                nxt[sp["flow"]] = nxt.get(sp["flow"], 0) + 1
+                sp["id"] = nxt[sp["flow"]]
+            case["ids"] = "per-flow"
+        # late configuration: build the shaper with other values (or without its optional arguments) and assign the
+        # public attributes the code reads at every use before any traffic; the bucket level that __init__ derives
+        # from the bucket size is assigned consistently
+        r = rng.random()
+        if r < 0.10:
+            case["late_cfg"] = "all"
+        elif r < 0.17:
+            case["late_cfg"] = "optional"
+            if (kind == "tb" and case["peak"] is None) or (kind == "trtb" and case["pir"] is None and case["pbs"] is None):
+                case["late_cfg"] = "bare"            # built without the optional arguments, nothing assigned: the defaults
         return case
 
     def _boundary_arrival(self, case, rng, sizes):
@@ -320,9 +390,56 @@ class BucketPart:
     # ---- implementation -------------------------------------------------------------------------
     def run_impl(self, case):
         if case["kind"] in ("tb2", "trtb2"):
-            obs = self._run(case["insts"], False, case["t0"])
-            return {"multi": obs[:-1], "interfere": obs[-1], "raised": obs[0]["raised"]}
-        return self._run([case], case.get("pre"), case["t0"])[0]
+            o = self._run(case["insts"], False, case["t0"])
+            obs = {"multi": o[:-1], "interfere": o[-1], "raised": o[0]["raised"]}
+        else:
+            obs = self._run([case], case.get("pre"), case["t0"])[0]
+        if case.get("canary"):
+            obs["canary"] = self._canary()
+        return obs
+
+    # the fixed scenarios (they are the non-vacuity examples tb_example / trtb_example of the Coq development, and corpus
+    # cases) and what the unchanged code is known to do on them
+    CANARY = [
+        ({"kind": "tb", "t0": "0/1", "rate": "1024/1", "bsize": 256, "peak": "4096/1", "pre": False,
+          "workload": {"packets": {"0": {"id": 1, "flow": 0, "size": 256, "time": "0/1", "src": "c"},
+                                   "1": {"id": 1, "flow": 1, "size": 128, "time": "0/1", "src": "c"}},
+                       "drivers": [{"late": 0, "bursts": [["0/1", [0, 1]]]}]}},
+         [[0, "1/2", ""], [1, "5/4", ""]], [2, 2, "0/1", "1/1", 0]),
+        ({"kind": "tb", "t0": "0/1", "rate": "1024/1", "bsize": 256, "peak": None, "pre": False, "late_cfg": "bare",
+          "workload": {"packets": {"0": {"id": 1, "flow": 0, "size": 256, "time": "0/1", "src": "c"},
+                                   "1": {"id": 1, "flow": 1, "size": 128, "time": "0/1", "src": "c"}},
+                       "drivers": [{"late": 0, "bursts": [["0/1", [0, 1]]]}]}},
+         [[0, "0/1", ""], [1, "1/1", ""]], [2, 2, "0/1", "1/1", 0]),
+        ({"kind": "trtb", "t0": "0/1", "cir": "1024/1", "cbs": 256, "pir": None, "pbs": None, "pre": False, "late_cfg": "bare",
+          "workload": {"packets": {"0": {"id": 1, "flow": 0, "size": 256, "time": "0/1", "src": "c"},
+                                   "1": {"id": 1, "flow": 1, "size": 128, "time": "0/1", "src": "c"}},
+                       "drivers": [{"late": 0, "bursts": [["0/1", [0, 1]]]}]}},
+         [[0, "0/1", "green"], [1, "1/1", "yellow"]], [2, 2, "0/1", None, "1/1", 0]),
+        ({"kind": "trtb", "t0": "0/1", "cir": "1024/1", "cbs": 256, "pir": "2048/1", "pbs": 512, "pre": False,
+          "workload": {"packets": {"0": {"id": 1, "flow": 0, "size": 256, "time": "0/1", "src": "c"},
+                                   "1": {"id": 2, "flow": 0, "size": 256, "time": "0/1", "src": "c"},
+                                   "2": {"id": 1, "flow": 1, "size": 256, "time": "0/1", "src": "c"},
+                                   "3": {"id": 3, "flow": 0, "size": 128, "time": "2/1", "src": "c"}},
+                       "drivers": [{"late": 0, "bursts": [["0/1", [0, 1, 2]], ["2/1", [3]]]}]}},
+         [[0, "0/1", "green"], [1, "0/1", "yellow"], [2, "1/1", "red"], [3, "2/1", "green"]],
+         [4, 4, "128/1", "128/1", "2/1", 0]),
+    ]
+
+    def _canary(self):
+        diffs = []
+        for (c, exp_deps, exp_final) in self.CANARY:
+            o = self._run([c], False, c["t0"])[0]
+            if o["raised"]:
+                diffs.append(f"canary-differs: the fixed {c['kind']} scenario raised {o['raised']}")
+                continue
+            _, _, deps = self._timeline(c, o)
+            got = [[d["uid"], cf.qjson(d["t"]), d["colour"]] for d in deps]
+            final = o["log"][-1][-1] if o["log"] else None
+            if got != exp_deps or final != exp_final:
+                diffs.append(f"canary-differs: the fixed {c['kind']} scenario, run after this case in the same process, gave departures "
+                             f"{got} final state {final}; known: {exp_deps} {exp_final}")
+        return diffs
 
     def _run(self, cases, pre, t0):
         """run one or two bucket instances in ONE Environment; returns one observation per instance (the global clock
@@ -342,20 +459,43 @@ class BucketPart:
                 h.add_driver(d["bursts"], late=d["late"])
         insts, samplers = [], []
         for i, c in enumerate(cases):
+            lc = c.get("late_cfg")
             if c["kind"] == "tb":
                 from onl.netdev.token_bucket import TokenBucket
-                el = TokenBucket(env, rate=num(c["rate"]), bucket_size=c["bsize"],
-                                 peak=None if c["peak"] is None else num(c["peak"]))
+                rate, B, peak = num(c["rate"]), c["bsize"], None if c["peak"] is None else num(c["peak"])
+                if lc == "all":
+                    el = TokenBucket(env, rate=rate * 4, bucket_size=B + 64, peak=None if self._truthy(c["peak"]) else 8192)
+                    el.rate, el.bucket_size, el.peak = rate, B, peak
+                    el.current_bucket = B
+                elif lc == "bare":
+                    el = TokenBucket(env, rate, B)
+                elif lc == "optional":
+                    el = TokenBucket(env, rate, B)
+                    el.peak = peak
+                else:
+                    el = TokenBucket(env, rate=rate, bucket_size=B, peak=peak)
                 samplers.append(lambda el=el: [el.packets_received, el.packets_sent, ec.qs(el.current_bucket),
                                                ec.qs(el.update_time), len(el.store.items)])
             else:
                 from onl.netdev.two_level_token_bucket import TwoRateTokenBucket
-                el = TwoRateTokenBucket(env, cir=num(c["cir"]), cbs=c["cbs"],
-                                        pir=None if c["pir"] is None else num(c["pir"]), pbs=c["pbs"])
+                cir, cbs, pir, pbs = num(c["cir"]), c["cbs"], None if c["pir"] is None else num(c["pir"]), c["pbs"]
+                if lc == "all":
+                    el = TwoRateTokenBucket(env, cir=cir * 2, cbs=cbs + 100, pir=None if self._truthy(c["pir"]) else cir * 8,
+                                            pbs=None if self._truthy(c["pir"]) else 4096)
+                    el.cir, el.cbs, el.pir, el.pbs = cir, cbs, pir, pbs
+                    el.current_bucket_commit, el.current_bucket_peak = cbs, pbs
+                elif lc == "bare":
+                    el = TwoRateTokenBucket(env, cir, cbs)
+                elif lc == "optional":
+                    el = TwoRateTokenBucket(env, cir, cbs)
+                    el.pir, el.pbs = pir, pbs
+                    el.current_bucket_peak = pbs
+                else:
+                    el = TwoRateTokenBucket(env, cir=cir, cbs=cbs, pir=pir, pbs=pbs)
                 samplers.append(lambda el=el: [el.packets_received, el.packets_sent, ec.qs(el.current_bucket_commit),
                                                None if el.current_bucket_peak is None else ec.qs(el.current_bucket_peak),
                                                ec.qs(el.update_time), len(el.store.items)])
-            el.out = ColourTap(h, "out" + tags[i])
+            el.out = ColourTap(h, "out" + tags[i], samplers[-1])
             h.watch_store("store" + tags[i], el.store)
             if tags[i]:
                 el.action._generator.__name__ = "run" + tags[i]
@@ -414,7 +554,9 @@ class BucketPart:
     # ---- log -> model actions -------------------------------------------------------------------
     COL = {"green": "Green", "yellow": "Yellow", "red": "Red"}
 
-    def _obs_term(self, case, obs):
+    def _obs_term(self, case, obs, hand=False):
+        """the observed execution as the list tb_agree / tr_agree replay (also used by the pipeline part); with hand=True
+        every forwarded packet is paired with the state its next hop sampled inside put(): the list of tb_agree_h / tr_agree_h"""
         specs = case["workload"]["packets"]
         tb = case["kind"] == "tb"
         px = "T" if tb else "R"
@@ -436,19 +578,27 @@ class BucketPart:
                 a = px + a
             else:
                 return None, f"unexpected log entry {e[:2]}"
+            if hand and any(len(x) < 7 or x[6] is None for x in outs):
+                return None, "a forwarded packet without the next hop's sample of the shaper"
             if tb:
-                o = cf.lst([ec.pkt_coq(specs[str(x[2])], x[2]) for x in outs])
-                smp = f"({cf.z(sample[0])}, {cf.z(sample[1])}, {cf.q(sample[2])}, {cf.q(sample[3])}, {cf.nat(sample[4])})"
+                o = cf.lst([f"({ec.pkt_coq(specs[str(x[2])], x[2])}, {self._smp(True, x[6])})" if hand else
+                            ec.pkt_coq(specs[str(x[2])], x[2]) for x in outs])
             else:
                 for x in outs:
                     if x[5] not in self.COL:
                         return None, f"packet {x[2]} forwarded with colour {x[5]!r}"
-                o = cf.lst([f"({ec.pkt_coq(specs[str(x[2])], x[2])}, {self.COL[x[5]]})" for x in outs])
-                vp = sample[3] if sample[3] is not None else 0
-                smp = (f"({cf.z(sample[0])}, {cf.z(sample[1])}, {cf.q(sample[2])}, {cf.q(vp)}, {cf.q(sample[4])}, "
-                       f"{cf.nat(sample[5])})")
-            acts.append(f"({a}, {o}, {smp})")
+                o = cf.lst([f"({ec.pkt_coq(specs[str(x[2])], x[2])}, {self.COL[x[5]]}" +
+                            (f", {self._smp(False, x[6])})" if hand else ")") for x in outs])
+            acts.append(f"({a}, {o}, {self._smp(tb, sample)})")
         return acts, None
+
+    @staticmethod
+    def _smp(tb, sample):
+        if tb:
+            return f"({cf.z(sample[0])}, {cf.z(sample[1])}, {cf.q(sample[2])}, {cf.q(sample[3])}, {cf.nat(sample[4])})"
+        vp = sample[3] if sample[3] is not None else 0
+        return (f"({cf.z(sample[0])}, {cf.z(sample[1])}, {cf.q(sample[2])}, {cf.q(vp)}, {cf.q(sample[4])}, "
+                f"{cf.nat(sample[5])})")
 
     @staticmethod
     def _truthy(x):
@@ -467,6 +617,8 @@ class BucketPart:
         return f"{{| cir := {cf.q(case['cir'])}; cbs := {cf.q(case['cbs'])}; pk := {pkc} |}}"
 
     def agree_term(self, case, obs):
+        if obs.get("canary"):
+            return "false (* the canary scenario run after this case differs from its known observation *)"
         if case["kind"] in ("tb2", "trtb2"):
             if obs["interfere"]:
                 return "false (* instances interfere *)"
@@ -479,13 +631,13 @@ class BucketPart:
             return None                      # PIR without PBS: the code asserts; outside the model
         if obs["raised"]:
             return "false"
-        acts, err = self._obs_term(case, obs)
+        acts, err = self._obs_term(case, obs, hand=True)
         if acts is None:
             return f"false (* {err} *)"
         body = cf.lst(acts, sep=";\n    ")
         if case["kind"] == "tb":
-            return f"tb_agree {cfg} (tb0 true {cfg} {cf.q(case['t0'])}) {body}"
-        return f"tr_agree {cfg} (tr0 true {cfg} {cf.q(case['t0'])}) {body}"
+            return f"tb_agree_h {cfg} (tb0 true {cfg} {cf.q(case['t0'])}) {body}"
+        return f"tr_agree_h {cfg} (tr0 true {cfg} {cf.q(case['t0'])}) {body}"
 
     def model_term(self, case):
         return None
@@ -511,7 +663,8 @@ class BucketPart:
                 arrivals.append((e[1], now, specs[str(e[1])]["size"]))
                 nput += 1
             for o in outs:
-                deps.append({"uid": o[2], "t": now, "fields": o[3], "same": o[4], "colour": o[5]})
+                deps.append({"uid": o[2], "t": now, "fields": o[3], "same": o[4], "colour": o[5], "hand": o[6], "nput": nput,
+                             "after": e[-1] if e[0] in ("put", "step") else None})
                 nfwd += 1
             if e[0] in ("put", "step"):
                 s = e[-1]
@@ -521,7 +674,7 @@ class BucketPart:
 
     def monitor(self, case, obs, prop_id):
         if case["kind"] in ("tb2", "trtb2"):
-            msgs = list(obs["interfere"])
+            msgs = list(obs.get("canary") or []) + list(obs["interfere"])
             for c, o in zip(case["insts"], obs["multi"]):
                 msgs += self.monitor(c, o, prop_id)
             return msgs[:3]
@@ -530,6 +683,8 @@ class BucketPart:
             return [f"{kind}-raises: {obs['raised']}"]
         specs = case["workload"]["packets"]
         msgs, arrivals, deps = self._timeline(case, obs)
+        msgs = list(obs.get("canary") or []) + msgs
+        msgs += self._handoff(case, arrivals, deps)
         order = [u for (u, _, _) in arrivals]
         got = [d["uid"] for d in deps]
         size = {u: s for (u, _, s) in arrivals}
@@ -565,7 +720,7 @@ class BucketPart:
             rate, B = Fr(case["rate"]), Fr(case["bsize"])
             peak = Fr(case["peak"]) if self._truthy(case["peak"]) else None
             exp = ref_tb(case, arrivals)
-            for d, (u, dd, dep) in zip(deps, exp):
+            for d, (u, dd, dep, left) in zip(deps, exp):
                 if d["t"] != dep:
                     w = "later" if d["t"] > dep else "earlier"
                     msgs.append(f"tb-release-instant: packet {u} (size {size[u]}) released at {d['t']}, {w} than the earliest "
@@ -585,7 +740,7 @@ class BucketPart:
             cir, cbs = Fr(case["cir"]), Fr(case["cbs"])
             pir = Fr(case["pir"]) if self._truthy(case["pir"]) else None
             exp = ref_trtb(case, arrivals)
-            for d, (u, dep, col) in zip(deps, exp):
+            for d, (u, dep, col, cleft, pleft) in zip(deps, exp):
                 if d["t"] != dep:
                     w = "later" if d["t"] > dep else "earlier"
                     msgs.append(f"trtb-release-instant: packet {u} (size {size[u]}) released at {d['t']}, {w} than the earliest "
@@ -610,6 +765,49 @@ class BucketPart:
                 msgs.append(m)
         return msgs[:3]
 
+    def _handoff(self, case, arrivals, deps):
+        """what a next hop reads of the shaper inside its put(): the k-th packet is handed over after its tokens were taken
+        and before it is counted as sent; the packets behind it are still in the store"""
+        kind = case["kind"]
+        tb = kind == "tb"
+        msgs = []
+        try:
+            exp = ref_tb(case, arrivals) if tb else ref_trtb(case, arrivals)
+        except Exception:
+            exp = []
+        pir = (not tb) and self._truthy(case["pir"])
+        for k, d in enumerate(deps):
+            hs = d["hand"]
+            if hs is None:
+                msgs.append(f"{kind}-handoff-unobserved: packet {d['uid']} came out of a tap that is not this shaper's")
+                break
+            if hs[1] != k:
+                msgs.append(f"{kind}-handoff-sent: the next hop reads packets_sent = {hs[1]} while it receives departure number {k}")
+            if hs[0] != d["nput"]:
+                msgs.append(f"{kind}-handoff-received: the next hop reads packets_received = {hs[0]} after {d['nput']} puts")
+            if hs[-1] != d["nput"] - (k + 1):
+                msgs.append(f"{kind}-handoff-store: the next hop reads len(store.items) = {hs[-1]}; {d['nput']} packets were put in and "
+                            f"the server has taken {k + 1}")
+            lv, ut = (hs[2:3], hs[3]) if tb else (hs[2:4], hs[4])
+            if d["after"] is not None:
+                a = d["after"]
+                alv, aut = (a[2:3], a[3]) if tb else (a[2:4], a[4])
+                if lv != alv or ut != aut:
+                    msgs.append(f"{kind}-handoff-level: the next hop reads bucket level(s) {lv} / update_time {ut}; after the step they "
+                                f"are {alv} / {aut} (the tokens must be taken before the packet is handed over)")
+            if k < len(exp) and d["uid"] == exp[k][0]:
+                if tb:
+                    want_lv, want_ut = [cf.qjson(exp[k][3])], cf.qjson(exp[k][1])
+                else:
+                    want_lv = [cf.qjson(exp[k][3])] + ([cf.qjson(exp[k][4])] if pir else lv[1:])
+                    want_ut = cf.qjson(exp[k][1])
+                if d["t"] == exp[k][2 if tb else 1] and ([x if x is None else cf.qjson(x) for x in lv] != want_lv or cf.qjson(ut) != want_ut):
+                    msgs.append(f"{kind}-handoff-level: packet {d['uid']} is handed over with bucket level(s) {lv}, update_time {ut}; "
+                                f"the bucket(s) hold {want_lv} since {want_ut}")
+            if msgs:
+                break
+        return msgs[:2]
+
     def nontrivial(self, case, obs, prop_id):
         if case["kind"] in ("tb2", "trtb2"):
             return (not obs["raised"] and all(len(c["workload"]["packets"]) >= 2 for c in case["insts"])
@@ -626,6 +824,8 @@ class BucketPart:
 
     def shrink(self, case):
         if case["kind"] in ("tb2", "trtb2"):
+            if case.get("canary"):
+                yield {k: v for k, v in case.items() if k != "canary"}
             for i in (0, 1):
                 for c in self.shrink(case["insts"][i]):
                     if c["t0"] != case["t0"] or not c["workload"]["packets"]:
@@ -643,6 +843,9 @@ class BucketPart:
             yield {**case, "t0": "0/1", "workload": {**w, "drivers": ds}}
         if case.get("pre"):
             yield {**case, "pre": False}
+        for flag in ("canary", "late_cfg", "ids"):
+            if case.get(flag):
+                yield {k: v for k, v in case.items() if k != flag}
         if case["kind"] == "tb" and case["peak"] is not None:
             yield {**case, "peak": None}
 
@@ -650,7 +853,9 @@ class BucketPart:
         if case["kind"] in ("tb2", "trtb2"):
             a, b = case["insts"]
             return [case["kind"], f"{case['kind']}:{a['kind']}+{b['kind']}",
-                    case["kind"] + ":t0=" + ("0" if case["t0"] == "0/1" else "neg" if case["t0"].startswith("-") else "pos")]
+                    case["kind"] + ":t0=" + ("0" if case["t0"] == "0/1" else "neg" if case["t0"].startswith("-") else "pos")] + \
+                   (["canary-after-case"] if case.get("canary") else []) + \
+                   ([case["kind"] + ":late-configuration"] if any(c.get("late_cfg") for c in case["insts"]) else [])
         k = case["kind"]
         keys = [k, f"{k}:packets={min(len(case['workload']['packets']), 15)}", f"{k}:drivers={len(case['workload']['drivers'])}",
                 f"{k}:t0={'0' if case['t0'] == '0/1' else ('neg' if case['t0'].startswith('-') else 'pos')}"]
@@ -666,6 +871,15 @@ class BucketPart:
                 keys.append("trtb:colour=" + str(d["colour"]))
         if case.get("pre"):
             keys.append(f"{k}:driver-created-before-element")
+        if case.get("late_cfg"):
+            keys.append(f"{k}:late-configuration={case['late_cfg']}")
+        if case.get("ids"):
+            keys.append(f"{k}:ids-per-flow")
+            ids = [(sp["id"]) for sp in case["workload"]["packets"].values()]
+            if len(set(ids)) < len(ids):
+                keys.append(f"{k}:equal-ids-across-flows")
+        if case.get("canary"):
+            keys.append("canary-after-case")
         if obs.get("raised"):
             keys.append(f"{k}:raised")
         return sorted(set(keys))
